@@ -135,6 +135,71 @@ def w_names(job):
     return n, fails
 
 
+# ------------------------------------------------------------------ a file written again: what loads is what was written LAST
+RW_LIBS = ["export function scale(int x) -> int { return x * 10; }\n",
+           "export function scale(int x) -> int { return x * 800; }\n",
+           "export function scale(int x) -> int { int t = x; if (t > 2) { t = t + 7; } return t; }\n"]
+RW_EXPECT = [lambda a: a * 10 + 1, lambda a: a * 800 + 1, lambda a: (a + 7 if a > 2 else a) + 1]
+RW_APP = 'import "lib";\nexport function main(int a) -> int { return scale(a) + 1; }\n'
+
+
+def w_rewrite(job):
+    """One process, one directory: lib.nslir is written by nslc.py, an application importing "lib" is compiled, stored, loaded and
+    linked; then lib.nslir is written AGAIN with another body (every sequence of versions in the job) and the stored application is
+    loaded and linked again with a fresh Linker.  After every write: Load("lib") / Load("lib.nslir") list like the module just
+    written, and the linked program computes what the version just written computes."""
+    from ..nslapi import listing
+    from nsl import LinearIR
+    seq, opt, how = job
+    fails, n = [], 0
+    d = tempfile.mkdtemp(prefix="nslmc-rw-", dir=snapshot._tmp_root())
+    old = os.getcwd()
+
+    def fail(kind, step, exp, obs):
+        fails.append({"key": f"C17|rewrite|{kind}|step={min(step, 1)};link={how}", "rewrite": [list(seq), opt, how], "source": RW_APP + "---- lib versions written in order: " + repr(list(seq)),
+                      "expected": exp, "observed": str(obs)[:300]})
+    try:
+        os.chdir(d)
+        loader = LinearIR.FilesystemModuleLoader()
+        for step, v in enumerate(seq):
+            open("lib.nsl", "w").write(RW_LIBS[v])
+            code, lib = checkers.run_nslc(["lib.nsl", "-o", "lib.nslir", "-O", str(opt)], d)
+            if code != 0 or lib is None:
+                fail("nslc-does-not-write", step, "nslc.py writes lib.nslir", f"exit {code}")
+                break
+            if step == 0:
+                open("app.nsl", "w").write(RW_APP)
+                code, app = checkers.run_nslc(["app.nsl", "-o", "app.nslir", "-O", str(opt)], d)
+                if code != 0 or app is None:
+                    fail("nslc-does-not-write", step, "nslc.py compiles the importing application", f"exit {code}")
+                    break
+            for name in ("lib", "lib.nslir", os.path.join(d, "lib.nslir")):
+                n += 1
+                try:
+                    got = listing(LinearIR.FilesystemModuleLoader().Load(name))
+                except BaseException as e:
+                    got = f"<<{type(e).__name__}: {e}>>"
+                if got != listing(lib):
+                    fail("load-returns-an-earlier-version", step, f"Load({name!r}) lists like the module just written (version {v})", got)
+            try:
+                stored = LinearIR.FilesystemModuleLoader().Load("app.nslir")
+                lk = {"default-loader": lambda: LinearIR.Linker(), "fresh-loader": lambda: LinearIR.Linker(loader=LinearIR.FilesystemModuleLoader()),
+                      "same-loader-object": lambda: LinearIR.Linker(loader=loader)}[how]()
+                lk.AddModule(stored)
+                program = lk.Link()
+                for a in (1, 5):
+                    n += 1
+                    r = new_vm(program).Invoke("main", a=a)
+                    if r != RW_EXPECT[v](a):
+                        fail("linked-program-uses-an-earlier-version", step, f"main({a}) == {RW_EXPECT[v](a)} (lib version {v} was written last)", f"main({a}) == {r!r}")
+            except BaseException as e:
+                fail("link-or-run-fails", step, "links and runs", f"{type(e).__name__}: {e}")
+    finally:
+        os.chdir(old)
+        shutil.rmtree(d, ignore_errors=True)
+    return n, fails
+
+
 _family_run = run
 
 
@@ -169,6 +234,20 @@ def run(tier, seed):
     out["coverage"]["evaluations"] += m
     out["coverage"]["distinct_nontrivial"] += m
     out["coverage"]["per_family"]["names(ordered pairs of output file names in one directory x -O)"] = m
+    import itertools
+    seqs = [q for L in (1, 2, 3) for q in itertools.product(range(3), repeat=L) if all(x != y for x, y in zip(q, q[1:]))]
+    jobs = [(q, o, how) for q in seqs for o in (0, 1) for how in ("default-loader", "fresh-loader", "same-loader-object")]
+    m = 0
+    for a, fl in pool.pmap(w_rewrite, jobs):      # hermetic: a process-wide cache must not carry over from another job
+        m += a
+        for f in fl:
+            out["coverage"]["failing_cases_per_key"][f["key"]] = out["coverage"]["failing_cases_per_key"].get(f["key"], 0) + 1
+            if f["key"] not in seen:
+                out["failures"].append(f)
+                seen.add(f["key"])
+    out["coverage"]["evaluations"] += m
+    out["coverage"]["distinct_nontrivial"] += m
+    out["coverage"]["per_family"]["rewrite(sequences of <=3 versions of an imported module written to the same file x -O x loader)"] = m
     return out
 
 
@@ -176,6 +255,12 @@ _family_replay = replay
 
 
 def replay(rec, verbose=True):
+    if "rewrite" in rec:
+        q, o, how = rec["rewrite"]
+        n, fl = w_rewrite((tuple(q), o, how))
+        if verbose:
+            print(fl)
+        return any(f["key"] == rec["key"] for f in fl)
     if "names" in rec:
         n, fl = w_names(tuple(rec["names"]))
         if verbose:
